@@ -409,3 +409,57 @@ def raised_class(r: ast.Raise) -> str:
     if isinstance(e, ast.Call):
         return dotted(e.func).split('.')[-1]
     return dotted(e).split('.')[-1]
+
+
+def inlined_statements(fn: FuncNode) -> List[str]:
+    """the function's statements with single-assignment local names substituted into their uses and the binding statements
+    removed (so `m = E; f(x & m)` and `f(x & E)` normalise alike). only straight-line top-level bindings are inlined."""
+    import copy
+    binds: Dict[str, ast.expr] = {}
+    counts: Dict[str, int] = {}
+    for n in ast.walk(fn):
+        if isinstance(n, ast.Name) and isinstance(n.ctx, ast.Store):
+            counts[n.id] = counts.get(n.id, 0) + 1
+    out: List[str] = []
+
+    class Sub(ast.NodeTransformer):
+        def visit_Name(self, node: ast.Name) -> ast.AST:
+            if isinstance(node.ctx, ast.Load) and node.id in binds:
+                return copy.deepcopy(binds[node.id])
+            return node
+
+    for st in fn.body:
+        if isinstance(st, ast.Expr) and isinstance(st.value, ast.Constant):
+            continue            # docstring
+        st2 = Sub().visit(copy.deepcopy(st))
+        if isinstance(st2, ast.Assign) and len(st2.targets) == 1 and isinstance(st2.targets[0], ast.Name) and counts.get(st2.targets[0].id) == 1:
+            binds[st2.targets[0].id] = st2.value
+            continue
+        out.append(norm(ast.fix_missing_locations(st2)))
+    return out
+
+
+def eval_int_expr(e: ast.AST, env: Dict[str, int]) -> int:
+    """evaluate a pure integer arithmetic expression (names from env, + - * // % ** & | ^ << >>, unary - ~ +, comparisons as 0/1,
+    conditional expressions) - constant folding of an expression with given operand values, no repository code runs."""
+    import operator as _op
+    BIN = {ast.Add: _op.add, ast.Sub: _op.sub, ast.Mult: _op.mul, ast.FloorDiv: _op.floordiv, ast.Mod: _op.mod, ast.BitAnd: _op.and_,
+           ast.BitOr: _op.or_, ast.BitXor: _op.xor, ast.LShift: _op.lshift, ast.RShift: _op.rshift, ast.Pow: _op.pow}
+    if isinstance(e, ast.Constant) and isinstance(e.value, int):
+        return int(e.value)
+    if isinstance(e, (ast.Name, ast.Attribute)):
+        k = norm(e)
+        if k not in env:
+            raise AnalysisError(f'eval_int_expr: unbound name {k}')
+        return env[k]
+    if isinstance(e, ast.UnaryOp):
+        v = eval_int_expr(e.operand, env)
+        return -v if isinstance(e.op, ast.USub) else ~v if isinstance(e.op, ast.Invert) else +v if isinstance(e.op, ast.UAdd) else int(not v)
+    if isinstance(e, ast.BinOp) and type(e.op) in BIN:
+        return BIN[type(e.op)](eval_int_expr(e.left, env), eval_int_expr(e.right, env))
+    if isinstance(e, ast.IfExp):
+        return eval_int_expr(e.body if eval_int_expr(e.test, env) else e.orelse, env)
+    if isinstance(e, ast.Compare) and len(e.ops) == 1:
+        a, b = eval_int_expr(e.left, env), eval_int_expr(e.comparators[0], env)
+        return int({ast.Lt: a < b, ast.LtE: a <= b, ast.Gt: a > b, ast.GtE: a >= b, ast.Eq: a == b, ast.NotEq: a != b}[type(e.ops[0])])
+    raise AnalysisError(f'eval_int_expr: unsupported expression {norm(e)[:60]}')
